@@ -164,6 +164,28 @@ fn explore(api: &Api, setting_ix: usize, chunk: usize, nchunks: usize, tier: Tie
             judge(cx, &m, format!("setbyte/{}", f.name), json!({"action": "set byte", "offset": off, "value": v, "field": f.name}));
         }
     }
+    // pairs of positions of the server MAC altered together, by a common XOR mask or by +1/-1: a tag comparison that
+    // folds the per-byte (or per-word) differences with ^ or + instead of | cancels exactly these.  quick: all pairs at
+    // a distance that is a multiple of 4 x {^01, +1/-1}; thorough: all pairs x {^01, ^80, ^ff, +1/-1}
+    let mac = sp.field(Kind::CredResp, "server_mac");
+    for i in (0..mac.len).filter(|i| i % nchunks == chunk) {
+        for j in i + 1..mac.len {
+            if !tier.thorough() && (j - i) % 4 != 0 {
+                continue;
+            }
+            let masks: &[u8] = if tier.thorough() { &[0x01, 0x80, 0xff] } else { &[0x01] };
+            for d in masks {
+                let mut m = g.clone();
+                m[mac.start + i] ^= d;
+                m[mac.start + j] ^= d;
+                judge(cx, &m, "pairsub/server_mac".into(), json!({"action": "xor two MAC bytes", "offsets": [mac.start + i, mac.start + j], "mask": d}));
+            }
+            let mut m = g.clone();
+            m[mac.start + i] = m[mac.start + i].wrapping_add(1);
+            m[mac.start + j] = m[mac.start + j].wrapping_sub(1);
+            judge(cx, &m, "pairsub/server_mac".into(), json!({"action": "+1/-1 on two MAC bytes", "offsets": [mac.start + i, mac.start + j]}));
+        }
+    }
     cx.depth(1);
     if chunk == 0 {
         cx.sample(json!({"suite": api.name(), "setting": p.describe(), "genuine_response": hex::encode(g), "donors": w.donors.iter().map(|d| d.0).collect::<Vec<_>>()}));
@@ -187,7 +209,7 @@ pub fn run(tier: Tier, seed: u64) -> i32 {
         tier,
         seed,
         rule: "mutation LTS rooted at the genuine credential response of an honest login (2 settings x 20 suites): every single-byte substitution of the stated set, every 1- and 2-field splice from 8 donor responses, whole-response swaps, reflected element; each mutant is one ClientLogin::finish transition".into(),
-        bounds: json!({"suites": 20, "settings": 2, "depth": 1, "setbyte": if tier.thorough() {"every offset x all 255 other values"} else {"every offset x {^0x01,^0x80}; all 256 values of first/last byte of element fields"}, "donors": 8, "splices": "all single fields and all pairs of fields per donor"}),
+        bounds: json!({"suites": 20, "settings": 2, "depth": 1, "setbyte": if tier.thorough() {"every offset x all 255 other values"} else {"every offset x {^0x01,^0x80}; all 256 values of first/last byte of element fields"}, "mac_pair_substitutions": if tier.thorough() {"all position pairs x {^01,^80,^ff,+1/-1}"} else {"position pairs at distances divisible by 4 x {^01,+1/-1}"}, "donors": 8, "splices": "all single fields and all pairs of fields per donor"}),
         assumptions: vec!["a mutant that decodes to the genuine object is an alias (C10), not an altered response".into()],
         exhaustive: true,
         crosscheck: json!(null),
